@@ -374,6 +374,8 @@ class ImageBatch(DataTensor):
         if is_multi_index and len(index) > 1 and isinstance(index[1], int):
             return data  # cannot be an ImageBatch or Image without a channel dimension
         grid_index = index[0] if is_multi_index else index
+        if isinstance(grid_index, list) and grid_index and all(isinstance(i, bool) for i in grid_index):
+            grid_index = [i for i, keep in enumerate(grid_index) if keep]  # boolean mask given as list
         if isinstance(grid_index, (np.ndarray, Tensor)) and grid_index.dtype in (bool, torch.bool):
             grid_index = grid_index.nonzero()[0] if isinstance(grid_index, np.ndarray) else grid_index.nonzero().flatten()
         if isinstance(grid_index, (np.ndarray, Sequence, Tensor)):
